@@ -14,6 +14,7 @@ func init() {
 		},
 		NotDecided: []string{"strings.Contains(s, \"\") being true (library semantics)", "regexp engine semantics"},
 		Rules: func(r *Run) {
+			ruleIPScanStarts(r)
 			ruleValueStrGuarded(r)
 			ruleLPClass(r, func(s string) bool {
 				return s == "LineFilter" || s == "LabelFilter" || s == "DistinctFilter" || s == "AndLabelMatcher" || s == "OrLabelMatcher" || s == "Pipeline"
